@@ -186,6 +186,8 @@ def ops_grid(cfgname):
     add("get_multi", "get_multi", ["h1", "m1", "num"])
     add("set_multi", "set_multi", {"a": b"1", "b": b"2"}, noreply=False)
     add("delete_multi", "delete_multi", ["h1", "m1"], noreply=False)
+    add("close", "close")
+    add("disconnect_all", "disconnect_all")
     add("set-badexpire", "set", "k", b"v", expire="soon")
     add("incr-baddelta", "incr", "num", "1")
     add("get_many", "get_many", ["h1", "m1", "num"])
